@@ -5,7 +5,8 @@
 From Coq Require Import Permutation.
 From Clikit Require Import Base.Prelude Base.Res Model.Conv Model.Format Model.Parser Model.Resolver Model.Run
      Model.Tokenizer Model.Gate Model.Switches Proofs.ResolverLemmas Proofs.SwitchesLemmas
-     Proofs.HelpSamePageLemmas Proofs.HelpRunLemmas Proofs.SwitchesHelpLemmas.
+     Proofs.HelpSamePageLemmas Proofs.HelpRunLemmas Proofs.SwitchesHelpLemmas Proofs.HelpAnywhereLemmas
+     Proofs.HelpAnywhereErrLemmas Proofs.HelpAnywhereVersionLemmas Model.Question Model.QuestionText Proofs.SwitchesQuestionLemmas.
 
 (* Placement independence: the settings depend only on which switches are among the option tokens. *)
 Theorem settings_perm : forall debug l l', Permutation l l' -> io_settings debug l = io_settings debug l'.
@@ -93,6 +94,41 @@ Proof. exact interactive_table. Qed.
 Print Assumptions settings_table_interaction.
 Print Assumptions settings_table_ansi.
 
+(* With C18: "the no-interaction switch makes questions return their defaults".  The interaction flag of the run's IO
+   (line_interactive = s_interactive of the settings create_io computes from the line) is what Question.ask reads through
+   io.is_interactive(); the question models of C18 (Model/Question.v, Model/QuestionText.v) take it as their first
+   argument.  For EVERY application, EVERY line carrying "-n" or "--no-interaction" among its option tokens (anywhere
+   before the first "--", whatever else is on the line, whatever the line resolves to) the flag is off, and every
+   question asked with it - choice (single / multi-select), confirmation (case-insensitive and case-sensitive pattern),
+   plain question with or without validator - returns its default, reads no line and writes nothing, whatever the
+   input stream holds (all_questions_return_defaults).  The flag is off ONLY for such lines
+   (interaction_flag_off_iff_switch), so without the switch, and with the switch behind "--", the input stays
+   interactive.
+   What is definitional here: settings_table_interaction (io_settings is a transcription of create_io, tied by
+   settings_match_source) and the non-interactive branch of the question models (C18 non_interactive_default,
+   confirmation_non_interactive, non_interactive_writes_nothing: the first test of ask()).  What the composition adds is
+   the line-level quantifier and the iff.  That the handler's questions are asked on the IO create_io built is observed by
+   the tie (oracle class no-interaction-question-default). *)
+Theorem no_interaction_switch_makes_questions_return_defaults : forall debug a toks sw,
+  sw = T_no_interaction \/ sw = T_n -> In sw (option_tokens toks) ->
+  line_interactive debug a toks = false /\ all_questions_return_defaults (line_interactive debug a toks).
+Proof. exact no_interaction_switch_lemma. Qed.
+Print Assumptions no_interaction_switch_makes_questions_return_defaults.
+Theorem no_interaction_switch_wherever_it_stands : forall debug a l1 sw l2,
+  sw = T_no_interaction \/ sw = T_n -> no_ddash l1 = true ->
+  all_questions_return_defaults (line_interactive debug a (l1 ++ sw :: l2)).
+Proof. exact no_interaction_switch_inserted. Qed.
+Print Assumptions no_interaction_switch_wherever_it_stands.
+Theorem interaction_flag_off_iff_switch : forall debug a toks,
+  line_interactive debug a toks = false <-> In T_no_interaction (option_tokens toks) \/ In T_n (option_tokens toks).
+Proof. exact line_interactive_iff. Qed.
+Print Assumptions interaction_flag_off_iff_switch.
+Theorem no_interaction_switch_after_ddash_does_not_act : forall debug a l (t : list str),
+  ~ In T_no_interaction (option_tokens l) -> ~ In T_n (option_tokens l) ->
+  line_interactive debug a l = true /\ line_interactive debug a (l ++ [DASH; DASH] :: t) = true.
+Proof. exact no_switch_stays_interactive. Qed.
+Print Assumptions no_interaction_switch_after_ddash_does_not_act.
+
 (* With C10: under the quiet switch no write path of any output emits anything - error reports included. *)
 Theorem quiet_silences : forall debug ots k a m f,
   (has_token T_quiet ots || has_token T_q ots) = true ->
@@ -117,9 +153,9 @@ Print Assumptions help_switch.
      ex_help_value_error - then that error is reported, AHelpFail);
    - with default sub-commands: the page of the first default sub-command that parses the path.
    "Status 0" = the action is AHelpCmd (prints_page), not AHelpFail / AError.
-   PARTIAL: the switch directly behind the path, nothing else on the line.  For a switch among further arguments
-   and options only the decision (help_decision_perm, switch_position_free_on_the_line) and "never a handler"
-   (help_switch) are proved; the page printed then rests on the tie. *)
+   These four speak of the line path ++ [sw] (the switch directly behind the path, nothing else on the line) and relate
+   it to "help <path>"; the general case - the switch anywhere among further switches, options and arguments - is
+   help_switch_anywhere_* below. *)
 Theorem help_switch_after_path_shows_a_page_or_why_not : forall cfg a debug path sw,
   build_app cfg = Ok a -> default_help_config cfg = true -> forallb lead_ok path = true -> path <> [] ->
   (match path with t :: _ => str_eqb t S_help = false | [] => True end) -> sw = T_help \/ sw = T_h ->
@@ -155,6 +191,163 @@ Theorem help_switch_after_path_default_sub_command : forall cfg a debug path sw 
   sm_action (run_summary debug a (path ++ [sw])) = AHelpCmd (p ++ [b_name d]).
 Proof. intros cfg a debug path sw b p ds1 d ds2 x y Hb Hc Hp Hn Hh Hs. apply (help_switch_page_default cfg); assumption. Qed.
 Print Assumptions help_switch_after_path_default_sub_command.
+
+(* ---- The help switch ANYWHERE among the tokens after the command path and before "--" (fourth session). ----
+   The line is path ++ rest: path = its leading plain tokens (command names and positionals written before the first
+   option; not empty, not starting with the word "help"), rest = everything behind them - further global switches
+   (-q, -v, --ansi ...), the command's own options with their values, more arguments, a "--" tail - with "--help" or "-h"
+   somewhere among the option tokens of rest.  every_line_is_a_path_and_a_rest: EVERY line decomposes that way, with
+   path = leading toks and rest starting with an option-like token, "--" or the empty token (starts_stopped), so the
+   shape is no restriction.  No hypothesis on rest beyond the switch being there.
+
+   What the code does (DefaultApplicationConfig.resolve_help_command): the PRE_RESOLVE listener sees the switch among the
+   RAW option tokens and parses the whole line leniently with the format of the command "help" (help_line_parse); the
+   leading plain tokens make its argument "command" set whatever follows (the proof: the token loop over arbitrary
+   tokens keeps the argument scratch map a placement of the positionals read, HelpAnywhereLemmas.loop_absorbs), so
+   HelpTextHandler asks HelpResolver for the command of the line (help_target) and prints its page.  Exhaustively:
+     - the help command's own lenient parse fails (only a value error of a GLOBAL option can do that): error report;
+     - the version switch was given as well - parsed from the line ("-V", "--version", also grouped "-qV" or "--V":
+       Examples) or as a raw option token: name and version (the PRE_HANDLE listener), status 0, no handler;
+     - otherwise: the page of help_target (path ++ rest), or the report of why there is none.
+   help_target walks the leading tokens to the command b (name path p; C03 walk_deepest) and takes b's first default
+   sub-command that parses THE LINE AS IT STANDS under its own leniency, else the first one, else b; the command picked
+   is then parsed leniently, and only a value error can make that fail.  So:
+     - b without default sub-commands: p's page, exactly when b's lenient parse of the line succeeds
+       (help_switch_anywhere_prints_that_commands_help, _status_zero);
+     - with default sub-commands: the first one parsing the line, else the first (..._default_sub_command,
+       ..._first_default_when_none_parses).
+   NOT true, and proved false below with witnesses replayed on the real code (notes/w2-c09c03.md):
+     - "status 0 for every valid line with the switch inserted": help_switch_between_option_and_value_fails_refuted -
+       "cmd --name foo a" runs the handler, "cmd --name --help foo a" ends in a ValueError report (the switch takes the
+       place of the option's value, "foo" and "a" move one argument to the right, "a" is no integer).  The real code
+       does the same (status 1): a defect against the property text, proposed-fixes/help-switch-value-error.*;
+     - "the page is that of the command the line without the switch runs": help_switch_changes_the_default_refuted - with
+       two default sub-commands the probe sees another line (C03's options_after_the_path_change_the_default_refuted
+       for the help switch); by design of "first parsable default": a reading, not a defect. *)
+Theorem every_line_is_a_path_and_a_rest : forall toks, exists path rest,
+  toks = path ++ rest /\ forallb lead_ok path = true /\ starts_stopped rest = true /\ path = leading toks.
+Proof. exact line_decomposes. Qed.
+Print Assumptions every_line_is_a_path_and_a_rest.
+Theorem help_switch_anywhere_shows_a_page_or_why_not : forall cfg a debug path rest sw,
+  build_app cfg = Ok a -> default_help_config cfg = true -> forallb lead_ok path = true -> path <> [] ->
+  (match path with t :: _ => str_eqb t S_help = false | [] => True end) ->
+  sw = T_help \/ sw = T_h -> In sw (option_tokens rest) ->
+  sm_action (run_summary debug a (path ++ rest)) =
+    match help_line_parse a (path ++ rest) with
+    | Err k => AError k
+    | Ok (fx, x) =>
+      if args_is_option_set fx x S_version || wants_version (option_tokens rest) then AVersion [S_help]
+      else help_page a (path ++ rest)
+    end /\
+  match sm_action (run_summary debug a (path ++ rest)) with AHandler _ => False | _ => True end.
+Proof.
+  intros cfg a debug path rest sw Hb Hc Hp Hn Hh Hs Hin. pose proof (wants_help_in sw _ Hs Hin) as Hw.
+  split; [apply (help_anywhere_run cfg); assumption|apply help_anywhere_no_handler; assumption].
+Qed.
+Print Assumptions help_switch_anywhere_shows_a_page_or_why_not.
+Theorem help_switch_anywhere_prints_that_commands_help : forall cfg a debug path rest sw fx x b p,
+  build_app cfg = Ok a -> default_help_config cfg = true -> forallb lead_ok path = true -> path <> [] ->
+  (match path with t :: _ => str_eqb t S_help = false | [] => True end) ->
+  sw = T_help \/ sw = T_h -> In sw (option_tokens rest) -> starts_stopped rest = true ->
+  help_line_parse a (path ++ rest) = Ok (fx, x) -> args_is_option_set fx x S_version = false ->
+  wants_version (option_tokens rest) = false ->
+  walk (named_of (ap_cmds a)) None path = Ok (Some (b, p)) -> defaults_of (b_subs b) = [] ->
+  sm_action (run_summary debug a (path ++ rest)) =
+    match parse (b_fmt b) true (path ++ rest) with Ok _ => AHelpCmd p | Err k => AHelpFail k end.
+Proof.
+  intros cfg a debug path rest sw fx x b p Hb Hc Hp Hn Hh Hs Hin Hst Hpa Hv1 Hv2 Hw Hd.
+  apply (help_anywhere_that_command cfg a debug path rest Hb Hc Hp Hn Hh (wants_help_in sw _ Hs Hin) fx x Hpa Hv1 Hv2 Hst b p Hw Hd).
+Qed.
+Print Assumptions help_switch_anywhere_prints_that_commands_help.
+Theorem help_switch_anywhere_status_zero : forall cfg a debug path rest sw fx x b p y,
+  build_app cfg = Ok a -> default_help_config cfg = true -> forallb lead_ok path = true -> path <> [] ->
+  (match path with t :: _ => str_eqb t S_help = false | [] => True end) ->
+  sw = T_help \/ sw = T_h -> In sw (option_tokens rest) -> starts_stopped rest = true ->
+  help_line_parse a (path ++ rest) = Ok (fx, x) -> args_is_option_set fx x S_version = false ->
+  wants_version (option_tokens rest) = false ->
+  walk (named_of (ap_cmds a)) None path = Ok (Some (b, p)) -> defaults_of (b_subs b) = [] ->
+  parse (b_fmt b) true (path ++ rest) = Ok y ->
+  sm_action (run_summary debug a (path ++ rest)) = AHelpCmd p /\
+  prints_page (sm_action (run_summary debug a (path ++ rest))) = true.
+Proof.
+  intros cfg a debug path rest sw fx x b p y Hb Hc Hp Hn Hh Hs Hin Hst Hpa Hv1 Hv2 Hw Hd Hy.
+  apply (help_anywhere_that_command_ok cfg a debug path rest Hb Hc Hp Hn Hh (wants_help_in sw _ Hs Hin) fx x Hpa Hv1 Hv2 Hst b p Hw y Hd Hy).
+Qed.
+Print Assumptions help_switch_anywhere_status_zero.
+Theorem help_switch_anywhere_default_sub_command : forall cfg a debug path rest sw fx x b p ds1 d ds2 y z,
+  build_app cfg = Ok a -> default_help_config cfg = true -> forallb lead_ok path = true -> path <> [] ->
+  (match path with t :: _ => str_eqb t S_help = false | [] => True end) ->
+  sw = T_help \/ sw = T_h -> In sw (option_tokens rest) -> starts_stopped rest = true ->
+  help_line_parse a (path ++ rest) = Ok (fx, x) -> args_is_option_set fx x S_version = false ->
+  wants_version (option_tokens rest) = false ->
+  walk (named_of (ap_cmds a)) None path = Ok (Some (b, p)) ->
+  defaults_of (b_subs b) = ds1 ++ d :: ds2 ->
+  Forall (fun c => parse (b_fmt c) (b_lenient c) (path ++ rest) = Err CannotParse) ds1 ->
+  parse (b_fmt d) (b_lenient d) (path ++ rest) = Ok y -> parse (b_fmt d) true (path ++ rest) = Ok z ->
+  sm_action (run_summary debug a (path ++ rest)) = AHelpCmd (p ++ [b_name d]).
+Proof.
+  intros cfg a debug path rest sw fx x b p ds1 d ds2 y z Hb Hc Hp Hn Hh Hs Hin Hst Hpa Hv1 Hv2 Hw Hd H1 H2 H3.
+  apply (help_anywhere_default cfg a debug path rest Hb Hc Hp Hn Hh (wants_help_in sw _ Hs Hin) fx x Hpa Hv1 Hv2 Hst b p Hw ds1 d ds2 y z Hd H1 H2 H3).
+Qed.
+Print Assumptions help_switch_anywhere_default_sub_command.
+Theorem help_switch_anywhere_first_default_when_none_parses : forall cfg a debug path rest sw fx x b p d ds z,
+  build_app cfg = Ok a -> default_help_config cfg = true -> forallb lead_ok path = true -> path <> [] ->
+  (match path with t :: _ => str_eqb t S_help = false | [] => True end) ->
+  sw = T_help \/ sw = T_h -> In sw (option_tokens rest) -> starts_stopped rest = true ->
+  help_line_parse a (path ++ rest) = Ok (fx, x) -> args_is_option_set fx x S_version = false ->
+  wants_version (option_tokens rest) = false ->
+  walk (named_of (ap_cmds a)) None path = Ok (Some (b, p)) ->
+  defaults_of (b_subs b) = d :: ds ->
+  Forall (fun c => parse (b_fmt c) (b_lenient c) (path ++ rest) = Err CannotParse) (d :: ds) ->
+  parse (b_fmt d) true (path ++ rest) = Ok z ->
+  sm_action (run_summary debug a (path ++ rest)) = AHelpCmd (p ++ [b_name d]).
+Proof.
+  intros cfg a debug path rest sw fx x b p d ds z Hb Hc Hp Hn Hh Hs Hin Hst Hpa Hv1 Hv2 Hw Hd H1 H3.
+  apply (help_anywhere_default_none cfg a debug path rest Hb Hc Hp Hn Hh (wants_help_in sw _ Hs Hin) fx x Hpa Hv1 Hv2 Hst b p Hw d ds z Hd H1 H3).
+Qed.
+Print Assumptions help_switch_anywhere_first_default_when_none_parses.
+
+(* The two semantic hypotheses of the theorems above, characterised.
+   (1) The help command's own lenient parse can only fail with a VALUE error, when the options its format lists are
+   well-formed objects (help_options_ok: a multi-valued option requires a value, the default of an option that does not
+   require one converts - what Option's constructor guarantees).  Only a typed GLOBAL option can cause it
+   (Example anywhere_typed_global_option: "--level=x -h"); DefaultApplicationConfig's seven options cannot.
+   (2) "The parse does not set the version option" has a syntactic criterion, for configurations whose global options
+   include the version option as DefaultApplicationConfig defines it (defines_version: long name "version", short name
+   "V"): no option token of the line spells it - no token "--version..." / "--V...", no single-dash token holding the
+   letter V (no_version_spelling).  The parser files an option under the name it was FOUND by, so nothing else can set it,
+   wherever the lenient parse stops (Proofs/HelpAnywhereVersionLemmas.v: an invariant on the keys of the option scratch
+   map over arbitrary tokens).
+   With both: help_switch_anywhere_closed_form - for every such line the run prints the page of that command exactly when
+   the command's lenient parse of the line succeeds. *)
+Theorem help_parse_fails_only_with_a_value_error : forall cfg a toks k,
+  build_app cfg = Ok a -> default_help_config cfg = true -> help_options_ok a = true ->
+  help_line_parse a toks = Err k -> k = ValueError.
+Proof. exact help_line_parse_errors. Qed.
+Print Assumptions help_parse_fails_only_with_a_value_error.
+Theorem help_parse_sets_version_only_when_spelled : forall cfg a toks fx x,
+  build_app cfg = Ok a -> default_help_config cfg = true -> defines_version cfg = true ->
+  help_line_parse a toks = Ok (fx, x) -> no_version_spelling (option_tokens toks) = true ->
+  args_is_option_set fx x S_version = false.
+Proof. exact help_line_version_not_set. Qed.
+Print Assumptions help_parse_sets_version_only_when_spelled.
+Theorem help_switch_anywhere_closed_form : forall cfg a debug path rest sw b p,
+  build_app cfg = Ok a -> default_help_config cfg = true -> defines_version cfg = true ->
+  forallb lead_ok path = true -> path <> [] ->
+  (match path with t :: _ => str_eqb t S_help = false | [] => True end) ->
+  sw = T_help \/ sw = T_h -> In sw (option_tokens rest) -> no_version_spelling (option_tokens rest) = true ->
+  starts_stopped rest = true ->
+  walk (named_of (ap_cmds a)) None path = Ok (Some (b, p)) -> defaults_of (b_subs b) = [] ->
+  sm_action (run_summary debug a (path ++ rest)) =
+    match help_line_parse a (path ++ rest) with
+    | Err k => AError k
+    | Ok _ => match parse (b_fmt b) true (path ++ rest) with Ok _ => AHelpCmd p | Err k => AHelpFail k end
+    end.
+Proof.
+  intros cfg a debug path rest sw b p Hb Hc Hv Hp Hn Hh Hs Hin Hno Hst Hw Hd.
+  exact (help_anywhere_closed_that_command cfg a debug path rest Hb Hc Hv Hp Hn Hh (wants_help_in sw _ Hs Hin) Hno b p Hst Hw Hd).
+Qed.
+Print Assumptions help_switch_anywhere_closed_form.
 
 Theorem version_switch : forall debug a toks path f x,
   wants_help (option_tokens toks) = false -> resolve a toks = Ok (path, f, x) ->
@@ -262,3 +455,153 @@ Proof.
 Qed.
 Example insertion_hypotheses_hold : is_ddash T_quiet = false /\ no_ddash [SRV; ADD] = true.
 Proof. vm_compute. split; reflexivity. Qed.
+
+(* ---- non-vacuity and necessity for the help switch ANYWHERE: DefaultApplicationConfig's seven global options, the command
+   "help", "cmd [--name [VALUE]] [<a1>] [<a2:int>]", "srv" with the default sub-commands "x1 [--name VALUE] [<a1>]" and
+   "x2 [--name [VALUE]] [<a1>] [<a2>]" and the sub-command "add [<a1>]" ---- *)
+Definition gflag (l : str) (s : option str) : opt := {| o_long := l; o_short := s; o_flags := 4 + 2 + 128; o_default := VNone |}.
+Definition QUIET : str := [113;117;105;101;116]%N. Definition VERBOSE : str := [118;101;114;98;111;115;101]%N.
+Definition ANSI : str := [97;110;115;105]%N. Definition NO_ANSI : str := [110;111;45;97;110;115;105]%N.
+Definition NO_INTERACTION : str := [110;111;45;105;110;116;101;114;97;99;116;105;111;110]%N.
+Definition NAME : str := [110;97;109;101]%N. Definition CMD : str := [99;109;100]%N.
+Definition X1 : str := [120;49]%N. Definition X2 : str := [120;50]%N. Definition A1 : str := [97;49]%N. Definition A2 : str := [97;50]%N.
+Definition FOO : str := [102;111;111]%N. Definition LA : str := [97]%N.
+Definition T_name : str := [45;45;110;97;109;101]%N.                       (* --name *)
+Definition T_qV : str := [45;113;86]%N. Definition T_ddV : str := [45;45;86]%N.   (* -qV  --V *)
+Definition global_opts : list opt :=
+  [gflag S_help (Some [104%N]); gflag QUIET (Some [113%N]);
+   {| o_long := VERBOSE; o_short := Some [118%N]; o_flags := 16 + 2 + 128; o_default := VNone |};
+   gflag S_version (Some [86%N]); gflag ANSI None; gflag NO_ANSI None; gflag NO_INTERACTION (Some [110%N])].
+Definition o_name_opt : opt := {| o_long := NAME; o_short := None; o_flags := 16 + 1 + 128; o_default := VNone |}.
+Definition o_name_req : opt := {| o_long := NAME; o_short := None; o_flags := 8 + 1 + 128; o_default := VNone |}.
+Definition a_str (n : str) : arg := {| a_name := n; a_flags := 2 + 16; a_default := VNone |}.
+Definition a_int (n : str) : arg := {| a_name := n; a_flags := 2 + 64; a_default := VNone |}.
+Definition cfg2 : appcfg :=
+  {| ac_opts := global_opts; ac_args := [];
+     ac_cmds := [Cmd S_help [] true false true false [] [a_command] [];
+                 Cmd CMD [] false false true false [o_name_opt] [a_str A1; a_int A2] [];
+                 Cmd SRV [] false false true false [] []
+                   [Cmd X1 [] true false true false [o_name_req] [a_str A1] [];
+                    Cmd X2 [] true false true false [o_name_opt] [a_str A1; a_str A2] [];
+                    Cmd ADD [] false false true false [] [a_str A1] []]] |}.
+Definition act2 (l : list str) : option action :=
+  match build_app cfg2 with Ok a => Some (sm_action (run_summary false a l)) | Err _ => None end.
+
+(* the hypotheses of help_switch_anywhere_status_zero are met by "cmd -q --name foo -h -vv" (path = cmd; behind it a global
+   switch, the command's own option with its value, the help switch, another global switch) ... *)
+Example anywhere_hypotheses_hold :
+  match build_app cfg2 with
+  | Ok a =>
+    let path := [CMD] in let rest := [T_q; T_name; FOO; T_h; T_vv] in
+    default_help_config cfg2 = true /\ forallb lead_ok path = true /\ str_eqb CMD S_help = false /\
+    In T_h (option_tokens rest) /\ starts_stopped rest = true /\ wants_version (option_tokens rest) = false /\
+    match help_line_parse a (path ++ rest) with
+    | Ok (fx, x) => args_is_option_set fx x S_version = false
+    | Err _ => False end /\
+    match walk (named_of (ap_cmds a)) None path with
+    | Ok (Some (b, p)) => p = [CMD] /\ defaults_of (b_subs b) = [] /\
+                          match parse (b_fmt b) true (path ++ rest) with Ok _ => True | Err _ => False end
+    | _ => False end /\
+    sm_action (run_summary false a (path ++ rest)) = AHelpCmd [CMD] /\
+    s_quiet (sm_settings (run_summary false a (path ++ rest))) = true
+  | Err _ => False end.
+Proof. vm_compute. repeat split; auto. Qed.
+(* ... and the theorem applies to it *)
+Example anywhere_theorem_applied : forall a debug, build_app cfg2 = Ok a ->
+  match sm_action (run_summary debug a ([CMD] ++ [T_q; T_name; FOO; T_h; T_vv])) with AHandler _ => False | _ => True end.
+Proof.
+  intros a debug Ha.
+  apply (help_switch_anywhere_shows_a_page_or_why_not cfg2 a debug [CMD] [T_q; T_name; FOO; T_h; T_vv] T_h Ha);
+    [vm_compute; reflexivity|vm_compute; reflexivity|discriminate|vm_compute; reflexivity|now right|vm_compute; auto 10].
+Qed.
+(* the switch at other places of valid lines: behind the arguments, between two arguments, in front of a "--" tail; with
+   default sub-commands; behind "--" it is an argument *)
+Example anywhere_more_lines :
+  act2 [CMD; T_name; FOO; LA; T_help] = Some (AHelpCmd [CMD]) /\
+  act2 [CMD; LA; T_help; T_q] = Some (AHelpCmd [CMD]) /\
+  act2 [SRV; ADD; LA; T_q; T_h; [DASH; DASH]; T_V] = Some (AHelpCmd [SRV; ADD]) /\
+  act2 [SRV; T_name; FOO; LA; T_help] = Some (AHelpCmd [SRV; X1]) /\
+  act2 [SRV; ADD; T_h] = Some (AHelpCmd [SRV; ADD]) /\
+  act2 [SRV; T_h; ADD] = Some (AHelpCmd [SRV; X1]) /\        (* the path the switch stands behind is "srv" *)
+  act2 [SRV; ADD; [DASH; DASH]; T_h] = Some (AHandler [SRV; ADD]).
+Proof. vm_compute. repeat split. Qed.
+(* each hypothesis is needed: no leading plain token - the application page, or the page of the help command itself;
+   the word "help" first - the application page; the version switch given as well, also grouped ("-qV") or spelled "--V"
+   (neither is the raw token -V / --version) - name and version *)
+Example anywhere_needs_a_leading_token :
+  act2 [T_h] = Some AHelpApp /\ act2 [T_q; T_h; SRV] = Some (AHelpCmd [S_help]).
+Proof. vm_compute. split; reflexivity. Qed.
+Example anywhere_needs_another_first_word : act2 [S_help; T_h] = Some AHelpApp.
+Proof. vm_compute. reflexivity. Qed.
+Example anywhere_needs_no_version_switch :
+  act2 [SRV; T_V; T_h] = Some (AVersion [S_help]) /\
+  wants_version (option_tokens [T_qV; T_h]) = false /\ act2 [SRV; T_qV; T_h] = Some (AVersion [S_help]) /\
+  wants_version (option_tokens [T_ddV; T_h]) = false /\ act2 [SRV; T_ddV; T_h] = Some (AVersion [S_help]).
+Proof. vm_compute. repeat split. Qed.
+
+(* REFUTED: "a valid line with the help switch inserted somewhere behind the path prints the help with status 0".
+   "cmd --name foo a" is valid (the handler of cmd runs: name = foo, a1 = a); with "--help" between the option and its
+   value the option takes its default, "foo" and "a" move to a1 and a2, and a2 is an integer: the lenient parse of the
+   command picked raises a value error, which leniency does not swallow.  The real code does the same (status 1, a
+   ValueError report; replayed, notes/w2-c09c03.md): a defect against the property text. *)
+Theorem help_switch_between_option_and_value_fails_refuted : exists cfg a path rest1 rest2,
+  build_app cfg = Ok a /\ default_help_config cfg = true /\ forallb lead_ok path = true /\
+  sm_action (run_summary false a (path ++ rest1 ++ rest2)) = AHandler path /\
+  sm_action (run_summary false a (path ++ rest1 ++ rest2 ++ [T_help])) = AHelpCmd path /\
+  sm_action (run_summary false a (path ++ rest1 ++ T_help :: rest2)) = AHelpFail ValueError.
+Proof.
+  destruct (build_app cfg2) as [a|k] eqn:E; [|vm_compute in E; discriminate].
+  exists cfg2, a, [CMD], [T_name], [FOO; LA]. vm_compute in E. inversion E; subst a. vm_compute. repeat split.
+Qed.
+Print Assumptions help_switch_between_option_and_value_fails_refuted.
+(* REFUTED: "the page printed is that of the command the line without the switch runs".  With two default sub-commands
+   the probe "first default that parses the line" sees another line: "srv --name foo a" runs srv x1, and
+   "srv --name --help foo a" shows the page of srv x2 (x1 requires a value for --name, x2 does not).  Model = code
+   (replayed); by design of the default choice (C03 options_after_the_path_change_the_default_refuted): a reading. *)
+Theorem help_switch_changes_the_default_refuted : exists cfg a path rest1 rest2 d1 d2,
+  build_app cfg = Ok a /\ default_help_config cfg = true /\ d1 <> d2 /\
+  sm_action (run_summary false a (path ++ rest1 ++ rest2)) = AHandler (path ++ [d1]) /\
+  sm_action (run_summary false a (path ++ rest1 ++ rest2 ++ [T_help])) = AHelpCmd (path ++ [d1]) /\
+  sm_action (run_summary false a (path ++ rest1 ++ T_help :: rest2)) = AHelpCmd (path ++ [d2]).
+Proof.
+  destruct (build_app cfg2) as [a|k] eqn:E; [|vm_compute in E; discriminate].
+  exists cfg2, a, [SRV], [T_name], [FOO; LA], X1, X2. vm_compute in E. inversion E; subst a. vm_compute. repeat split. discriminate.
+Qed.
+Print Assumptions help_switch_changes_the_default_refuted.
+
+(* ---- the no-interaction switch and the questions: a choice question (default "1") on the line "srv add -n x", asked on
+   an input holding the line "0": the default, nothing read; without the switch, and with the switch behind "--", the
+   typed answer ---- *)
+Definition ex_q : choiceq := {| q_choices := [ADD; DEL]; q_multi := false; q_default := Some [49%N]; q_attempts := None |}.
+Example no_interaction_example :
+  match build_app cfg2 with
+  | Ok a =>
+    let asks toks := ask_choice (line_interactive false a toks) ex_q [[48%N]] in
+    In T_n (option_tokens [SRV; ADD; T_n; LA]) /\
+    asks [SRV; ADD; T_n; LA] = {| o_end := Answered (AOne [49%N]); o_lines_read := 0; o_errors_printed := 0; o_prompts := 0 |} /\
+    asks [SRV; T_no_interaction; ADD] = {| o_end := Answered (AOne [49%N]); o_lines_read := 0; o_errors_printed := 0; o_prompts := 0 |} /\
+    asks [SRV; ADD; LA] = {| o_end := Answered (AOne ADD); o_lines_read := 1; o_errors_printed := 0; o_prompts := 1 |} /\
+    asks [SRV; ADD; [DASH; DASH]; T_n] = {| o_end := Answered (AOne ADD); o_lines_read := 1; o_errors_printed := 0; o_prompts := 1 |}
+  | Err _ => False end.
+Proof. vm_compute. repeat split; auto. Qed.
+
+(* the criteria of help_switch_anywhere_closed_form on the example configuration; a typed global option "--level INT" is
+   what a value error of the help command's own parse needs *)
+Definition LEVEL : str := [108;101;118;101;108]%N.
+Definition T_level_x : str := [45;45;108;101;118;101;108;61;120]%N.   (* --level=x *)
+Definition o_level : opt := {| o_long := LEVEL; o_short := None; o_flags := 8 + 1 + 512; o_default := VNone |}.
+Definition cfg5 : appcfg := {| ac_opts := global_opts ++ [o_level]; ac_args := []; ac_cmds := ac_cmds cfg2 |}.
+Example anywhere_criteria_hold :
+  match build_app cfg2 with
+  | Ok a => help_options_ok a = true /\ defines_version cfg2 = true /\
+            no_version_spelling (option_tokens [T_q; T_name; FOO; T_h; T_vv]) = true /\
+            no_version_spelling [T_qV] = false /\ no_version_spelling [T_ddV] = false /\
+            no_version_spelling [T_V] = false /\ no_version_spelling [T_version] = false
+  | Err _ => False end.
+Proof. vm_compute. repeat split. Qed.
+Example anywhere_typed_global_option :
+  match build_app cfg5 with
+  | Ok a => help_options_ok a = true /\ default_help_config cfg5 = true /\
+            sm_action (run_summary false a [CMD; T_level_x; T_h]) = AError ValueError
+  | Err _ => False end.
+Proof. vm_compute. repeat split. Qed.
